@@ -149,7 +149,7 @@ def validate_nop_table(ctx, out):
 # ----------------------------------------------------------------------------------------------------------
 def design(ctx):
     q = ctx.quick
-    depth = {"all": 3, "align": 5 if q else 6, "label": 5 if q else 6}
+    depth = {"all": 3, "align": 5 if q else 6, "label": 4 if q else 6}
     behs = []
     with ThreadPoolExecutor(max_workers=8) as ex:
         fsim = simulate_start(ctx, ex, 300 if q else 8000)
@@ -318,6 +318,34 @@ def validate(ctx, tag, path, nshards):
     return n_ev
 
 
+def selftest_trace_spec(ctx, trace_path):
+    """the trace spec must not be vacuous: one corrupted byte / one deleted call is rejected at that line"""
+    import copy
+    execs = vlib.split_executions(vlib.read_ndjson(trace_path))
+    pick = next((e for e in execs if sum(1 for r in e if r.get("e") in ("Embed", "Align") and r.get("app") and r.get("r") == "Ok") >= 2), None)
+    if pick is None:
+        raise Broken("self-test: no execution with two emitting calls")
+    idx = [i for i, r in enumerate(pick) if r.get("e") in ("Embed", "Align") and r.get("app") and r.get("r") == "Ok"]
+    c1 = copy.deepcopy(pick)
+    c1[idx[-1]]["app"][0] ^= 0x21
+    c2 = copy.deepcopy(pick)
+    del c2[idx[0]]
+    c3 = copy.deepcopy(pick)
+    j = next((i for i, r in enumerate(c3) if i > idx[0] and r.get("img")), None)
+    cases = [("byte", c1, idx[-1] + 1), ("deleted", c2, idx[0] + 1)]
+    if j is not None:
+        c3[j]["img"][0] ^= 0x40         # a byte outside the window of that call
+        c3[j].pop("dig", None)
+        cases.append(("prefix", c3, j + 1))
+    for name, recs, line in cases:
+        p = ctx.path(f"selftest_{name}.ndjson")
+        vlib.write_ndjson(p, recs)
+        ok, maxl, r = vlib.validate_trace_file(ctx, MOD_T, CFG_T, p, tag=f"selftest_{name}")
+        if ok or maxl != line:
+            raise Broken(f"self-test '{name}': corrupted trace not rejected at line {line} (accepted={ok}, line={maxl})")
+    ctx.log(f"trace spec self-test: {len(cases)} corrupted traces rejected at the corrupted line")
+
+
 def run(ctx):
     q = ctx.quick
     bdir = ctx.build("asan", "dataemit")
@@ -343,6 +371,7 @@ def run(ctx):
     vlib.record_trace(ctx, bdir, "dataemit", ["random", tr_r, nexec, steps, ngrow], tr_r, timeout=1200, env={"VERIF_SEED": ctx.seed})
     tr_w = ctx.path("trace_sweep.ndjson")
     vlib.record_trace(ctx, bdir, "dataemit", ["sweep", tr_w, 1 if q else 2], tr_w, timeout=900, env={"VERIF_SEED": ctx.seed})
+    selftest_trace_spec(ctx, tr_w)          # the sweep has no placeholders: every byte is compared
     total = 0
     with ThreadPoolExecutor(max_workers=3) as ex:
         fs = [ex.submit(validate, ctx, tag, path, k) for tag, path, k in
